@@ -51,6 +51,11 @@ func TestC20_Engine(t *testing.T) {
 	rapid.Check(t, func(t *rapid.T) {
 		cmds, cls := gen.DB(t, gen.CmdOpts{Platforms: true, Unicode: rapid.IntRange(0, 2).Draw(t, "u") == 0, Sized: true, Long: true}, []int{0, 1, 3, 10, 1})
 		db := gen.Load(t, cmds)
+		withEmb := false
+		if len(cmds) > 0 && len(cmds) <= 80 && rapid.IntRange(0, 2).Draw(t, "embeddings") == 0 {
+			database.VerifSetEmbeddingIndex(db, drawEmbeddingIndex(t, cmds)) // the semantic stage reads the query too
+			withEmb = true
+		}
 		q, qc := gen.Query(t, cmds, []gen.QueryClass{"vocab", "vocab", "nlp", "nlp", "typo", "typo", "typo", "typo", "fragment", "fragment", "one", "mixed", "unicode", "long"})
 		warmUp(t, db, cmds)
 		if rapid.IntRange(0, 7).Draw(t, "hostile-k") == 0 {
@@ -88,6 +93,9 @@ func TestC20_Engine(t *testing.T) {
 			t.Fatalf("suggestions differ for case variants: %v vs %v\n%s", s1, s2, ctx())
 		}
 		labels := []string{"db:" + string(cls), "q:" + string(qc)}
+		if withEmb {
+			labels = append(labels, "embedding-index-attached")
+		}
 		off := opt
 		off.UseFuzzy = false
 		if opt.UseFuzzy && len(a) > 0 && len(db.SearchUniversal(q, off)) == 0 {
